@@ -38,9 +38,14 @@ def write_set(w, op):
 
     def add_cont(h):
         try:
-            ws.add(id(w.cont(h)))
+            c = w.cont(h)
         except Exception:
-            pass
+            return
+        ws.add(id(c))
+        if c.is_bundle() and c.document is not None:
+            # whether an operation on a bundle may also touch its own document (say, to
+            # declare a prefix there) is not what C12 is about
+            ws.add(id(c.document))
 
     def add_rec(ref):
         try:
@@ -50,6 +55,8 @@ def write_set(w, op):
         ws.add(id(r))
         if r.bundle is not None:
             ws.add(id(r.bundle))
+            if r.bundle.is_bundle() and r.bundle.document is not None:
+                ws.add(id(r.bundle.document))
 
     if k in ("add_ns", "set_default", "resolve", "get_record"):
         add_cont(op[1])
